@@ -128,12 +128,17 @@ def run(ctx, rep):
     rep.check(len(clears) == 2, "R2", key(f, None, "pending packages do not leak from one market / group into the next"), f)
     rl = prog.own_method("FlumineHistoricalGeneratorStream", "_read_loop")
     lps = [lp for lp in walk_nodes(rl.node.body, ast.For) if utext(lp.iter) == "file"]
-    good = len(lps) == 1 and not loop_body_exits_early(lps[0]) and not walk_nodes(lps[0].body, ast.Continue)
+    good = len(lps) == 1 and not loop_body_exits_early(lps[0])
     if good:
-        ys = walk_nodes(lps[0].body, ast.Yield)
-        ifs = [s for s in sbody(lps[0].body) if isinstance(s, ast.If)]
-        good = len(ys) == 1 and len(ifs) == 1 and len(sbody(lps[0].body)) == 1 and utext(ifs[0].test) == "listener_on_data(%s)" % utext(lps[0].target) \
-            and not ifs[0].orelse
+        from sa.kinds import guard_pairs
+        cfgr = ctx.cfg(rl)
+        tv = utext(lps[0].target)
+        ys = [n for n in cfgr.live_nodes() if n.kind == "stmt" and walk_nodes([n.ast], ast.Yield)]
+        offered = [n for n in cfgr.live_nodes() if n.kind == "cond" and utext(n.exprs[0]) == "listener_on_data(%s)" % tv]
+        # one offer per line (the first thing done with it), one batch exactly when the listener accepted it
+        good = len(ys) == 1 and len(offered) == 1 and guard_pairs(cfgr, ys[0].id) == {("listener_on_data(%s)" % tv, True)} \
+            and not guard_pairs(cfgr, offered[0].id) and \
+            [c for c in walk_calls(lps[0].body) if call_name(c) == "listener_on_data"] == [offered[0].exprs[0]]
         rd = [s for s in walk_nodes(rl.node.body, ast.Assign) if utext(s.targets[0]) == "file"]
         good = good and len(rd) == 1 and utext(rd[0].value) == "f.readlines()"
     rep.check(good, "R2", key(rl, None, "every line of the file is offered to the listener once; one batch per accepted update"), rl)
